@@ -64,7 +64,7 @@ var specs = map[string]*propSpec{
 	"C04": {
 		ID: "C04",
 		Rule: "case idx -> configuration (half: every field independently from {0,1,2,3,4,5,7,8,16,100,2^10,2^16,2^20} or uniform in 0..2^20; half: plausible small cores 3..64 with limits =M, <M, >M) -> NewReportingSimulator must return error xor simulator without panicking; " +
-			"every accepted configuration is USED: 1..4 warriors of uniformly random instruction forms (all 7616, boundary-biased fields), spawned at offsets in [0,3M), then stepped cycle by cycle (or driven by Run(), 1/4) " +
+			"every accepted configuration is USED: 1..4 warriors of uniformly random instruction forms (all 7616, boundary-biased fields), spawned at offsets in [0,3M), then stepped cycle by cycle, dead warriors being spawned again at random (or driven by Run(), 1/4) " +
 			"with the API-level invariants (fields and queued PCs < M, tasks <= P, CycleCount <= C, living count == #alive, alive <=> has tasks) and the internal-invariant hook evaluated after EVERY cycle. " +
 			"non-trivial = accepted configuration whose battle reported a write/inc/dec outside the executing warrior's own load area; distinct by (limit class, M class, P, warrior count, Run/step, opcode set bucket)",
 		Assumptions: append([]string{
@@ -206,7 +206,9 @@ var specs = map[string]*propSpec{
 	"C14": {
 		ID: "C14",
 		Rule: "case idx -> one round: (1) aliasing monitor: snapshot the caller's WarriorData, AddWarrior, scribble over the caller's Code/Start/Name/Author, spawn, and compare the battle (core, queues, after spawning and after Run) with the reference battle of the data as it was when added; afterwards the caller's data must be exactly what the caller wrote; " +
-			"(2) 8..48 jobs {assemble valid / hostile / FOR-heavy / EQU-heavy (incl. several undefined symbols) text, load a perturbed load file, build a simulator + add SHARED *WarriorData + spawn + Run}, the first three texts repeated 20x, each job first run alone, then all of them on 1..32 goroutines under GOMAXPROCS in {1,2,4,16}; every concurrent result (error?, WarriorData / survivors, cycle count, core hash, queues) must equal the sequential one and the shared WarriorData must be unchanged. " +
+			"(2) cross-simulator history probe: a simulator with a large process limit is run and Reset, then a simulator with a small limit runs a splitting warrior and must end exactly like the reference; " +
+			"(3) 8..48 jobs {assemble valid / hostile / FOR-heavy / EQU-heavy (incl. several undefined symbols) text, load a perturbed load file, build a simulator with its own process and cycle limits + add SHARED *WarriorData + spawn + Run (half of them: Reset, respawn, Run again)}, the first three texts repeated 20x and every FOR/EQU-heavy one 8x; " +
+			"half of the jobs are first run alone, the other half only after the concurrent phase (no warm cache); then all of them run on 1..32 goroutines under GOMAXPROCS in {1,2,4,16}; every concurrent result (error?, WarriorData / survivors, cycle count, core hash, queues) must equal the run-alone one, every battle must also equal the reference MARS, and the shared WarriorData must be unchanged. " +
 			"The race phase runs the same rounds on a -race build (halt_on_error=0, log_path); race reports are counted from the log files and de-duplicated by the functions on top of the two stacks — any report is a violation. " +
 			"non-trivial = job that overlapped in time with a job of another kind (atomic in-flight gauges); distinct by (kind pair, GOMAXPROCS)",
 		Assumptions: append([]string{
